@@ -14,6 +14,9 @@ CLAIMED = {
  "C01": dict(
    text="a reference RDB writer in the harness emits, per skeleton (28 value shapes x 4-6 attribute variants, metadata/multi-key/multi-db/encoded-key skeletons), a byte stream with symbolic field values, contents and length forms together with the expected records; the real loader (Header/NextBinEntry/Footer, readObjectValue, ReadString incl. int and LZF forms, module-aux skipping, createValueDump) runs on it from its SSA and every record field and the payload bytes (type || exact serialized bytes || version || CRC) are asserted for all symbolic values",
    note=NOTE_COMMON + "skeletons are enumerated concretely (strings <= 3 bytes, <= 3 elements, <= 3 keys); DUMP and file CRCs are computed on the oracle side by the tool's own digest over the same byte terms (C11 shows that digest is CRC-64/Jones); the 16 MiB chunked hash is not encoded"),
+ "C09": dict(
+   text="ring offset lemmas (roffset/woffset) for arbitrary 64-bit positions; one-step refinement of memBuffer/fileBuffer readSome/writeSome from an arbitrary valid symbolic state against a ghost stream; sequential close rules on the real pipe; protocol runs with a writer goroutine and the reader in the main goroutine where every interleaving at mutex/cond/channel granularity (preemption bound 2, thorough 3) is a branch of the search, with deadlock detection and an explicit hand-shake so that wake-up must come from progress, not from close",
+   note=NOTE_COMMON + "concrete ring sizes in the lemmas (a symbolic size is not decided within 60 s by any back end); step lemmas on an 8-byte ring; stream-length induction on paper; sync.Mutex/Cond/WaitGroup are engine primitives; schedule-dependent counterexamples are replayed by engine-concrete re-execution"),
  "C10": dict(
    text="18 value-tree skeletons (depth <= 3, payloads <= 3 symbolic bytes, small symbolic integers, nil vs empty) encoded with the real encoder, embedded in a stream with keep-alive newlines and a following value, decoded with the real decoder over real bufio: equality, exact byte position and intact remainder asserted for all payload values; integers across the imap boundaries; inline commands; corruption families (CR, LF, non-numeric and negative lengths, unknown type in array, every truncation point) must yield an error; ParseArgs/ChangeArgsToResp round trip",
    note=NOTE_COMMON + "shapes are enumerated concretely, contents are symbolic; text lines exclude LF; integers restricted to the listed ranges and edge values"),
